@@ -276,7 +276,7 @@ pub fn poll_to_end<F: std::future::Future>(f: F, max: usize) -> Option<F::Output
 }
 
 /// The async receiver over the same script; returns only the sequence of returns (no trace).
-pub fn run_async_receiver<T: Shape + ?Sized>(stream: &[u8], script: Vec<POut>, maxlen: usize, cap: usize, budget: usize, pending: bool) -> Obs<Vec<Value>> {
+pub fn run_async_receiver<T: Shape + ?Sized>(stream: &[u8], script: Vec<POut>, maxlen: usize, cap: usize, budget: usize, pending: bool, retain: &[usize]) -> Obs<Vec<Value>> {
     guarded(|| {
         let _ = verif::take();
         let src = PendingFirst::new(ScriptSource::new(stream.to_vec(), script, budget), pending);
@@ -289,7 +289,11 @@ pub fn run_async_receiver<T: Shape + ?Sized>(stream: &[u8], script: Vec<POut>, m
                     Ok(g) => {
                         let mut c = Ctx::unbounded();
                         let val = g.read(&mut c);
-                        (json!({"e": "msg", "v": val, "size": g.size(), "lencap": c.lencap}), false)
+                        let r = json!({"e": "msg", "v": val, "size": g.size(), "lencap": c.lencap});
+                        if retain.contains(&rets.len()) {
+                            g.retain();
+                        }
+                        (r, false)
                     }
                     Err(RecvError::Closed) => (json!({"e": "closed"}), true),
                     Err(RecvError::Parse(e)) => (json!({"e": "parse", "err": err_json(&e)}), true),
@@ -315,7 +319,7 @@ pub fn run_async_receiver<T: Shape + ?Sized>(stream: &[u8], script: Vec<POut>, m
     })
 }
 
-pub fn run_blocking_receiver<T: Shape + ?Sized>(stream: &[u8], script: Vec<POut>, maxlen: usize, cap: usize, budget: usize) -> Obs<RecvRun> {
+pub fn run_blocking_receiver<T: Shape + ?Sized>(stream: &[u8], script: Vec<POut>, maxlen: usize, cap: usize, budget: usize, retain: &[usize]) -> Obs<RecvRun> {
     guarded(|| {
         let _ = verif::take();
         let src = ScriptSource::new(stream.to_vec(), script, budget);
@@ -335,6 +339,9 @@ pub fn run_blocking_receiver<T: Shape + ?Sized>(stream: &[u8], script: Vec<POut>
                     let mut c = Ctx::unbounded();
                     let val = g.read(&mut c);
                     let size = g.size();
+                    if retain.contains(&rets.len()) {
+                        g.retain();
+                    }
                     (json!({"e": "msg", "v": val, "size": size, "lencap": c.lencap}), false)
                     // the guard is dropped here: skip(size())
                 }
@@ -374,11 +381,14 @@ pub fn run_blocking_receiver<T: Shape + ?Sized>(stream: &[u8], script: Vec<POut>
     })
 }
 
-fn script_from_recv_path(path: &[Value]) -> (Vec<POut>, Vec<Value>) {
+fn script_from_recv_path(path: &[Value]) -> (Vec<POut>, Vec<Value>, Vec<usize>) {
     let mut script = vec![];
-    let mut rets = vec![];
+    let mut rets: Vec<Value> = vec![];
+    let mut retain = vec![];
     for ev in path {
         match ev["e"].as_str().unwrap_or("") {
+            // the guard of the message just returned is retained (forgotten), not dropped
+            "retain" => retain.push(rets.len() - 1),
             "read" => script.push(POut::Data(ev["n"].as_u64().unwrap_or(0) as usize)),
             "rerr" => {
                 script.push(POut::Err(err_kind(ev["kind"].as_str().unwrap_or(""))));
@@ -394,7 +404,7 @@ fn script_from_recv_path(path: &[Value]) -> (Vec<POut>, Vec<Value>) {
             _ => {}
         }
     }
-    (script, rets)
+    (script, rets, retain)
 }
 
 impl<'a> Visitor for IoRecvVisitor<'a> {
@@ -409,9 +419,9 @@ impl<'a> Visitor for IoRecvVisitor<'a> {
         let cap = header["cap"].as_u64().unwrap_or(0) as usize;
         let valid = header["nmsg"].as_i64().unwrap_or(-1) >= 0;
         let path = arr(&case["path"]);
-        let (script, exp_rets) = script_from_recv_path(path);
+        let (script, exp_rets, retain) = script_from_recv_path(path);
         let nfaults = path.iter().filter(|e| e["e"] == "rerr" || e["e"] == "eof").count();
-        let class = format!("iorecv.{}.{}{}", if valid { "valid" } else { "arbitrary" }, case["final"].as_str().unwrap_or(""), if nfaults > 0 { ".faults" } else { "" });
+        let class = format!("iorecv.{}.{}{}", if valid { "valid" } else { "arbitrary" }, case["final"].as_str().unwrap_or(""), if nfaults > 0 { ".faults" } else if !retain.is_empty() { ".retain" } else { "" });
         out.count(&class);
         out.sample(&class, &json!({"header": header, "path": case["path"], "final": case["final"]}));
         let owner = |valid: bool, faults: usize| -> &'static str {
@@ -423,7 +433,7 @@ impl<'a> Visitor for IoRecvVisitor<'a> {
             // C08: the async receiver over a pipe that is always ready, under every chunking and buffer capacity
             out.count("judged.C08");
             out.count("ioasync.recv-paths");
-            match run_async_receiver::<T>(&stream, script.clone(), maxlen, cap, budget, false) {
+            match run_async_receiver::<T>(&stream, script.clone(), maxlen, cap, budget, false, &retain) {
                 Obs::Panic(m) => out.viol("C08", "panic", id, "async-recv", format!("async recv / guard drop panicked: {}", m)),
                 Obs::Ret(arets) => {
                     let msgs = arr(&header["msgs"]);
@@ -436,7 +446,9 @@ impl<'a> Visitor for IoRecvVisitor<'a> {
                         }
                         if got["e"] == "msg" {
                             bad = bad || msgs.get(mi).map(|m| content_diff(m, &got["v"], "").is_some()).unwrap_or(true);
-                            mi += 1;
+                            if !retain.contains(&i) {
+                                mi += 1;
+                            }
                         }
                     }
                     if bad {
@@ -450,7 +462,7 @@ impl<'a> Visitor for IoRecvVisitor<'a> {
         }
         out.count(&format!("judged.{}", p));
         let script2 = script.clone();
-        let run = match run_blocking_receiver::<T>(&stream, script, maxlen, cap, budget) {
+        let run = match run_blocking_receiver::<T>(&stream, script, maxlen, cap, budget, &retain) {
             Obs::Panic(m) => {
                 if m.contains(BUDGET) {
                     out.viol(p, "no-return", id, "recv", "recv did not return within the pipe-call budget".into());
@@ -506,7 +518,9 @@ impl<'a> Visitor for IoRecvVisitor<'a> {
                 if got["lencap"].as_array().map(|a| !a.is_empty()).unwrap_or(false) {
                     out.viol(p, "message", id, "len>cap", format!("message {}: {}", mi, got["lencap"]));
                 }
-                mi += 1;
+                if !retain.contains(&i) {
+                    mi += 1;
+                }
             }
         }
         // the async receiver runs the same algorithm: over the same script -- through a pipe that never answers
@@ -514,7 +528,7 @@ impl<'a> Visitor for IoRecvVisitor<'a> {
         // blocking one returned
         for pending in [false, true] {
             let variant = if pending { "async-recv(pending-first)" } else { "async-recv" };
-            match run_async_receiver::<T>(&stream, script2.clone(), maxlen, cap, budget, pending) {
+            match run_async_receiver::<T>(&stream, script2.clone(), maxlen, cap, budget, pending, &retain) {
                 Obs::Panic(m) => {
                     if m.contains(BUDGET) {
                         out.viol(p, "no-return", id, variant, "async recv did not return within the poll / pipe-call budget".into());
@@ -942,6 +956,22 @@ pub struct IoAsyncVisitor<'a> {
     pub out: &'a mut Out,
 }
 
+/// A future that its owner may drop before completion: when the flag is set at a poll, the inner future is
+/// not polled any more and is dropped.
+pub struct Cancellable<F> {
+    inner: Pin<Box<F>>,
+    flag: Rc<std::cell::Cell<bool>>,
+}
+impl<F: Future> Future for Cancellable<F> {
+    type Output = Option<F::Output>;
+    fn poll(mut self: Pin<&mut Self>, cx: &mut Context<'_>) -> Poll<Self::Output> {
+        if self.flag.replace(false) {
+            return Poll::Ready(None);
+        }
+        self.inner.as_mut().poll(cx).map(Some)
+    }
+}
+
 pub fn run_async_pair<T: Shape + ?Sized>(msgs: &[Value], maxlen: usize, pipe_cap: usize, schedule: &[char], ws: Vec<AOut>, rs: Vec<AOut>, fs: Vec<AOut>, extra_polls: usize) -> Obs<ARun> {
     guarded(|| {
         let pipe = Rc::new(RefCell::new(APipe { cap: pipe_cap, wscript: ws.into(), rscript: rs.into(), fscript: fs.into(), ..Default::default() }));
@@ -969,10 +999,17 @@ pub fn run_async_pair<T: Shape + ?Sized>(msgs: &[Value], maxlen: usize, pipe_cap
             // the sender (and with it the write half) is dropped here: the stream ends
         };
         let (l2, p2) = (log.clone(), pipe.clone());
+        let cancel = Rc::new(std::cell::Cell::new(false));
+        let cancel2 = cancel.clone();
         let receiver_task = async move {
             let mut rx = flatty_io::AsyncReceiver::<T, _>::io(AReader(p2), maxlen);
             loop {
-                match rx.recv().await {
+                // a suspended recv future can be dropped by its owner and recv called again (cancellation)
+                let res = match (Cancellable { inner: Box::pin(rx.recv()), flag: cancel2.clone() }).await {
+                    None => continue,
+                    Some(r) => r,
+                };
+                match res {
                     Ok(g) => {
                         let mut c = Ctx::unbounded();
                         let v = g.read(&mut c);
@@ -997,6 +1034,10 @@ pub fn run_async_pair<T: Shape + ?Sized>(msgs: &[Value], maxlen: usize, pipe_cap
         let mut r: Pin<Box<dyn Future<Output = ()> + '_>> = Box::pin(receiver_task);
         let (mut sdone, mut rdone) = (false, false);
         let mut poll_one = |t: char, sdone: &mut bool, rdone: &mut bool| {
+            if t == 'C' {
+                cancel.set(true);
+                return;
+            }
             let n0 = pipe.borrow().calls.len();
             let ready = if t == 'S' {
                 if *sdone { return; }
@@ -1050,7 +1091,13 @@ impl<'a> Visitor for IoAsyncVisitor<'a> {
         let mut schedule = vec![];
         let (mut ws, mut rs, mut fs) = (vec![], vec![], vec![]);
         let mut spurious = 0;
+        let mut cancels = 0;
         for p in path {
+            if p["res"] == "cancel" {
+                schedule.push('C');
+                cancels += 1;
+                continue;
+            }
             schedule.push(if p["task"] == "S" { 'S' } else { 'R' });
             for e in arr(&p["evs"]) {
                 let n = e["n"].as_u64().unwrap_or(0) as usize;
@@ -1065,7 +1112,7 @@ impl<'a> Visitor for IoAsyncVisitor<'a> {
                 }
             }
         }
-        let class = format!("ioasync.polls{}.{}", if spurious > 0 { ".spurious" } else { "" }, if case["done"][0] == json!(true) && case["done"][1] == json!(true) { "complete" } else { "prefix" });
+        let class = format!("ioasync.polls{}{}.{}", if spurious > 0 { ".spurious" } else { "" }, if cancels > 0 { ".cancel" } else { "" }, if case["done"][0] == json!(true) && case["done"][1] == json!(true) { "complete" } else { "prefix" });
         out.count(&class);
         out.count("judged.C08");
         out.sample(&class, &json!({"header": header, "path": case["path"], "pipecap": pipe_cap}));
@@ -1120,7 +1167,7 @@ impl<'a> Visitor for IoAsyncVisitor<'a> {
             }
         }
         // the polls of the path answer as in the model
-        for (i, p) in path.iter().enumerate() {
+        for (i, p) in path.iter().filter(|p| p["res"] != "cancel").enumerate() {
             if let Some((_, ready, _)) = run.polls.get(i) {
                 let exp_ready = p["res"] == "ready";
                 if *ready != exp_ready {
